@@ -163,18 +163,26 @@ def job_auto(job, tmp):
     return out
 
 
+def snap_hashes(sa):
+    """(strict, relaxed) sha256 of every snapshot re-saved and canonicalised; relaxed also ignores the members
+    index_1st_order_a/b of first-order var_config records"""
+    import hashlib
+    hs, hr = [], []
+    for k in range(sa.nblobs):
+        st = L.stream_of(rebound, sa[k])
+        for lst, rel in ((hs, False), (hr, True)):
+            m = L.masked(rebound, st, FT, relax_vc=rel)
+            lst.append(hashlib.sha256(repr(sorted(m.items())).encode()).hexdigest())
+    return hs, hr
+
+
 def job_open(job, tmp):
     """open a file; everything a user sees: error / nblobs / offsets / t / warning; optionally re-save each snapshot"""
     res = L.lib_index(rebound, job["file"])
     out = {"index": res}
     if job.get("load") and res[0]:
         sa = rebound.Simulationarchive(job["file"], process_warnings=False)
-        sh = []
-        for k in range(sa.nblobs):
-            st = L.stream_of(rebound, sa[k])
-            sh.append(L.masked(rebound, st, FT))
-        import hashlib
-        out["snap_hashes"] = [hashlib.sha256(repr(sorted(m.items())).encode()).hexdigest() for m in sh]
+        out["snap_hashes"], out["snap_hashes_relaxed"] = snap_hashes(sa)
     return out
 
 
@@ -188,14 +196,89 @@ def job_resume(job, tmp):
     for op in job["ops"]:
         L.apply_op(rebound, sim, op, fname)
     res = L.lib_index(rebound, fname)
-    out = {"restart_from": nb - 1, "index": res, "snap_hashes": []}
+    out = {"restart_from": nb - 1, "index": res, "snap_hashes": [], "snap_hashes_relaxed": []}
     if res[0]:
-        import hashlib
         sa = rebound.Simulationarchive(fname, process_warnings=False)
-        for k in range(sa.nblobs):
-            m = L.masked(rebound, L.stream_of(rebound, sa[k]), FT)
-            out["snap_hashes"].append(hashlib.sha256(repr(sorted(m.items())).encode()).hexdigest())
+        out["snap_hashes"], out["snap_hashes_relaxed"] = snap_hashes(sa)
     return out
+
+
+def job_many(job, tmp):
+    """more snapshots than the initial capacity of the index arrays (1024): a pure implementation-limit regression test
+    (the Coq model has unbounded lists)"""
+    f = os.path.join(tmp, "many.bin")
+    if os.path.exists(f):
+        os.remove(f)
+    sim = rebound.Simulation(); sim.add(m=1.0); sim.integrator = "leapfrog"; sim.dt = 0.5
+    n = job["n"]
+    ts = []
+    for i in range(n):
+        ts.append(sim.t)
+        sim.save_to_file(f)
+        sim.step()
+    sa = rebound.Simulationarchive(f, process_warnings=False)
+    nb = int(sa.nblobs)
+    bad_t = [i for i in range(min(nb, n)) if sa.t[i] != ts[i]][:5]
+    last = sa[-1]
+    mid = sa[min(nb, n) - 1]
+    return {"written": n, "nblobs": nb, "last_t": last.t, "expected_last_t": ts[-1], "bad_index_times": bad_t,
+            "warnings": int(sa.warnings.value), "t_at_1030": (sa[1030].t if nb > 1030 else None), "expected_t_at_1030": (ts[1030] if n > 1030 else None)}
+
+
+def job_spoof(job, tmp):
+    """crafted particle coordinates that look like END ++ trailer with a consistent back-link, crash right behind them,
+    then the user's recovery: open, restart from the last snapshot, step, append twice.  cut_delta=0: spoof, -1: control"""
+    f = os.path.join(tmp, "sp.bin")
+    if os.path.exists(f):
+        os.remove(f)
+    E = FT["end"][0]
+    dbl = lambda bits: struct.unpack("<d", struct.pack("<Q", bits))[0]
+    sim = L.new_sim(rebound, {"n": 3, "integrator": "whfast", "dt": 0.05})
+    sim.save_to_file(f); sim.step(); sim.save_to_file(f)
+    sim.step()
+    p1, p2 = sim.particles[1], sim.particles[2]
+    p1.y = dbl((128 << 32) | 0x1234)       # bytes 12..15 of particle 1: the value 128 (back-link target)
+    p2.x = dbl(E)                          # field type END, padding 0
+    p2.y = 0.0                             # field size 0
+    p2.z = dbl((128 << 32) | 7)            # trailer: index 7, offset_prev 128
+    p2.vx = 1.0                            # low 4 bytes = offset_next = 0
+    fa = open(f, "rb").read(); sim.save_to_file(f); fb = open(f, "rb").read()
+    off = len(fa) - 12
+    w = fb[off:]
+    i = w.find(struct.pack("<d", p2.x) + struct.pack("<d", 0.0) + struct.pack("<d", p2.z))
+    k = i + 28 + job.get("cut_delta", 0)
+    open(f, "wb").write(fa[:off] + w[:k] + fa[off + k:])
+    sa = rebound.Simulationarchive(f, process_warnings=False); nb0 = int(sa.nblobs); s2 = sa[-1]; del sa
+    s2.step(); s2.save_to_file(f); s2.step(); s2.save_to_file(f)
+    msgs = []
+    sa = rebound.Simulationarchive(f, process_warnings=False)
+    return {"cut": k, "write_len": len(w), "nblobs_after_crash": nb0, "nblobs_after_two_appends": int(sa.nblobs)}
+
+
+def job_cycle(job, tmp):
+    """repeated crash/restart cycles: restart from the last intact snapshot, redo the next segment, append; the append is cut
+    at the given fractions of its write (each fraction = one more crash), finally completed.  Returns snapshot hashes."""
+    import hashlib
+    fname = job["file"]; segs = job["segs"]; cuts = list(job["cuts"])
+    i = 0; ncrash = 0
+    while i < len(segs):
+        sa = rebound.Simulationarchive(fname, process_warnings=False)
+        sim = sa[-1]; del sa
+        for op in segs[i]:
+            L.apply_op(rebound, sim, op, fname)
+        fa = open(fname, "rb").read(); sim.save_to_file(fname); fb = open(fname, "rb").read()
+        if cuts:
+            c = cuts.pop(0)
+            diffpos = [p for p in range(len(fb)) if p >= len(fa) or fa[p] != fb[p]]
+            lo, hi = diffpos[0], diffpos[-1] + 1
+            p = lo + int(c * (hi - lo))
+            open(fname, "wb").write(fb[:p] + fa[p:])       # bytes before p written, the rest not
+            ncrash += 1
+        else:
+            i += 1
+    sa = rebound.Simulationarchive(fname, process_warnings=False)
+    hs, hr = snap_hashes(sa)
+    return {"snap_hashes": hs, "snap_hashes_relaxed": hr, "crashes": ncrash}
 
 
 def main():
@@ -204,7 +287,7 @@ def main():
     with tempfile.TemporaryDirectory(prefix="c06drv") as tmp:
         for job in jobs:
             try:
-                r = {"hist": job_hist, "auto": job_auto, "open": job_open, "resume": job_resume}[job["kind"]](job, tmp)
+                r = {"hist": job_hist, "auto": job_auto, "open": job_open, "resume": job_resume, "spoof": job_spoof, "cycle": job_cycle, "many": job_many}[job["kind"]](job, tmp)
             except Exception as e:
                 import traceback
                 r = {"exception": "%r" % (e,), "tb": traceback.format_exc()[-600:]}
